@@ -58,6 +58,13 @@ func take(x any, depth int) (*Snap, bool) {
 	if x == nil || depth > 64 {
 		return nil, false
 	}
+	// only the Stack/Condition forms the harness produces are handed to VerifDump: for anything else VerifDump would
+	// run the library's reflective converters, i.e. the monitor itself would touch library state (e.g. warm a cache)
+	if _, isS := knownStack(x); !isS {
+		if _, isC := knownCond(x); !isC {
+			return nil, false
+		}
+	}
 	s, ok := stackage.VerifDump(x)
 	if !ok {
 		return nil, false
@@ -349,4 +356,65 @@ func Show(v any) string {
 		s = s[:80] + "…"
 	}
 	return strings.ReplaceAll(s, "\n", " ")
+}
+
+// knownStack / knownCond recognise the Stack and Condition forms the generators produce without calling into the library.
+func knownStack(v any) (stackage.Stack, bool) {
+	switch tv := v.(type) {
+	case stackage.Stack:
+		return tv, true
+	case *stackage.Stack:
+		if tv != nil {
+			return *tv, true
+		}
+	case AStack:
+		return stackage.Stack(tv), true
+	case *AStack:
+		if tv != nil {
+			return stackage.Stack(*tv), true
+		}
+	case SStack:
+		return stackage.Stack(tv), true
+	case *SStack:
+		if tv != nil {
+			return stackage.Stack(*tv), true
+		}
+	case XStack:
+		return stackage.Stack(tv), true
+	case *XStack:
+		if tv != nil {
+			return stackage.Stack(*tv), true
+		}
+	}
+	return stackage.Stack{}, false
+}
+
+func knownCond(v any) (stackage.Condition, bool) {
+	switch tv := v.(type) {
+	case stackage.Condition:
+		return tv, true
+	case *stackage.Condition:
+		if tv != nil {
+			return *tv, true
+		}
+	case ACond:
+		return stackage.Condition(tv), true
+	case *ACond:
+		if tv != nil {
+			return stackage.Condition(*tv), true
+		}
+	case SCond:
+		return stackage.Condition(tv), true
+	case *SCond:
+		if tv != nil {
+			return stackage.Condition(*tv), true
+		}
+	case XCond:
+		return stackage.Condition(tv), true
+	case *XCond:
+		if tv != nil {
+			return stackage.Condition(*tv), true
+		}
+	}
+	return stackage.Condition{}, false
 }
